@@ -332,6 +332,17 @@ func (e *encoderBase) Release() {
 
 func (e *encoderBase) markSide() { e.side = true }
 
+// ciInherit makes a side encoder continue the circular reference check of the encoder that
+// spawned it (ci is that encoder's stack of tracked pointers): what the side encoder writes
+// is nested in the value its parent is encoding, so the parent's pointers are its ancestors.
+// Else a cycle through a map key which Canonical encodes out-of-band meets a fresh, empty
+// stack at every round and is never seen (stack overflow).
+//
+// The entries are copied: a side encoder is pooled and outlives the call.
+func (e *encoderBase) ciInherit(ci circularRefChecker) {
+	e.ci = append(e.ci[:0], ci...)
+}
+
 // builtinField and builtinElem report whether a struct field, or an element, key or value
 // of a collection, takes the builtin shortcut: its base type is one that encodeBuiltin
 // handles in a type switch (which includes the fast-path slices and maps), and the value is
@@ -432,6 +443,7 @@ type encoderI interface {
 
 	setContainerState(cs containerState) // needed for canonical encoding via side encoder
 	markSide()                           // called by sideEncode on every side encoder
+	ciInherit(ci circularRefChecker)     // a side encoder continues the circular reference check of its parent
 }
 
 var errEncNoResetBytesWithWriter = errors.New("cannot reset an Encoder which outputs to []byte with a io.Writer")
